@@ -960,12 +960,19 @@ class ItemMoveMultiple(MosFile):
                     f"{self.__class__.__name__} error in {self.message_id} - target item not found"
                 )
 
+        # find every source item before moving any, so that a failure leaves
+        # the story untouched
+        source_items = []
         for item in self.items:
             source_item, source_item_index = find_child(parent=story, child_tag='item', id=item.id)
             if source_item_index is None:
                 raise MosMergeError(
                     f"{self.__class__.__name__} error in {self.message_id} - source item not found"
                 )
+            source_items.append(source_item)
+
+        for source_item in source_items:
+            source_item_index = list(story).index(source_item)
             remove_node(parent=story, node=source_item)
             if source_item_index < target_item_index:
                 # removing the source item has shifted the target up by one
@@ -1896,12 +1903,19 @@ class EAStoryMove(ElementAction):
                     f"{self.__class__.__name__} error in {self.message_id} - target story not found"
                 )
 
+        # find every source story before moving any, so that a failure leaves
+        # the running order untouched
+        stories = []
         for source_story in self.stories:
             story, source_index = find_child(parent=ro.base_tag, child_tag='story', id=source_story.id)
             if story is None:
                 raise MosMergeError(
                     f"{self.__class__.__name__} error in {self.message_id} - source story not found"
                 )
+            stories.append(story)
+
+        for story in stories:
+            source_index = list(ro.base_tag).index(story)
             remove_node(parent=ro.base_tag, node=story)
             if source_index < target_story_index:
                 # removing the source story has shifted the target up by one
@@ -1977,12 +1991,19 @@ class EAItemMove(ElementAction):
             raise MosMergeError(
                 f"{self.__class__.__name__} error in {self.message_id} - target item not found"
             )
+        # find every source item before moving any, so that a failure leaves
+        # the story untouched
+        items = []
         for source_item in self.items:
             item, item_index = find_child(parent=story, child_tag='item', id=source_item.id)
             if item is None:
                 raise MosMergeError(
                     f"{self.__class__.__name__} error in {self.message_id} - source item not found"
                 )
+            items.append(item)
+
+        for item in items:
+            item_index = list(story).index(item)
             remove_node(parent=story, node=item)
             if item_index < target_item_index:
                 # removing the source item has shifted the target up by one
